@@ -29,7 +29,9 @@ func init() {
 
 func plainDef() *lexer.StatefulDefinition {
 	return lexer.MustStateful(lexer.Rules{
-		"Root": {{Name: "Open", Pattern: `<(\w+)>`, Action: lexer.Push("Body")}, {Name: "QOpen", Pattern: `([a-z])(["'])`, Action: lexer.Push("Quoted")}, {Name: "WS", Pattern: `\s+`}},
+		"Root": {{Name: "Open", Pattern: `<(\w+)>`, Action: lexer.Push("Body")}, {Name: "QOpen", Pattern: `([a-z])(["'])`, Action: lexer.Push("Quoted")}, {Name: "WS", Pattern: `\s+`},
+			// enters Body without a group: the end rule's back-reference cannot be expanded (use E: a located error, every time)
+			{Name: "Bare", Pattern: `!`, Action: lexer.Push("Body")}},
 		"Body": {{Name: "End", Pattern: `</\1>`, Action: lexer.Pop()}, {Name: "Text", Pattern: `[^<]+`}},
 		// the closing rule refers to two groups of the opening rule
 		"Quoted": {{Name: "QClose", Pattern: `\2\1`, Action: lexer.Pop()}, {Name: "QText", Pattern: `[^"']+`}, {Name: "Quote", Pattern: `["']`}},
@@ -45,7 +47,7 @@ func nulDef() *lexer.StatefulDefinition {
 	})
 }
 
-var useInput = map[string]string{"A": "<a>t</a>", "B": "<b>t</b>", "N1": "a\x00bta\x00b", "N2": "xa\x00bta", "D1": `a"hi"a`, "D2": `b"hi"b`}
+var useInput = map[string]string{"A": "<a>t</a>", "B": "<b>t</b>", "N1": "a\x00bta\x00b", "N2": "xa\x00bta", "D1": `a"hi"a`, "D2": `b"hi"b`, "E": "!t"}
 
 // lexString lexes on the calling goroutine (the gate hooks identify processes by goroutine).
 func lexString(def lexer.Definition, in string) (res string) {
@@ -252,7 +254,7 @@ func concReplay(args []string) error {
 
 // conc-history: every order of earlier sequential calls on ONE definition must leave each call's result unchanged.
 func concHistory(args []string) error {
-	uses := [][]string{{"A", "B", "D1", "D2"}, {"N1", "N2"}}
+	uses := [][]string{{"A", "B", "D1", "D2", "E"}, {"N1", "N2"}}
 	for _, set := range uses {
 		for _, first := range set {
 			for _, second := range set {
@@ -417,6 +419,53 @@ func concStress(args []string) error {
 	for i, j := range jobs {
 		ref[i] = j.run()
 	}
+	// parsers nobody has used yet: their FIRST calls happen inside the concurrent phase (references from separate instances).
+	// Production parsers (ParserForProduction) share the built parser with the root parser.
+	prodJobs := func() []job {
+		root := participle.MustBuild[exExpr]()
+		var js []job
+		js = append(js, job{"fresh-root:parse", func() string {
+			v, err := root.ParseString("", "1 + 2 * (3 - x)")
+			if err != nil {
+				return "err " + err.Error()
+			}
+			return strings.Join(exprTokens(v), ",")
+		}})
+		js = append(js, job{"fresh-root:String", func() string { return root.String() }})
+		js = append(js, job{"production:term", func() string {
+			pp, err := participle.ParserForProduction[exTerm](root)
+			if err != nil {
+				return "err " + err.Error()
+			}
+			v, err := pp.ParseString("", "2 * (3 - x) / 4")
+			if err != nil {
+				return "err " + err.Error()
+			}
+			return fmt.Sprintf("%d factors", 1+len(v.Right))
+		}})
+		js = append(js, job{"production:factor", func() string {
+			pp, err := participle.ParserForProduction[exFactor](root)
+			if err != nil {
+				return "err " + err.Error()
+			}
+			v, err := pp.ParseString("", "(1 + x)")
+			if err != nil {
+				return "err " + err.Error()
+			}
+			return fmt.Sprintf("sub=%v", v.Sub != nil)
+		}})
+		js = append(js, job{"production:missing", func() string {
+			_, err := participle.ParserForProduction[mappedGrammar](root)
+			return fmt.Sprint(err)
+		}})
+		return js
+	}
+	refProd := prodJobs()
+	for _, j := range refProd {
+		ref = append(ref, j.run())
+	}
+	jobs = append(jobs, prodJobs()...)
+	nprod := len(refProd)
 	var wg sync.WaitGroup
 	var mu sync.Mutex
 	bad := 0
@@ -428,6 +477,9 @@ func concStress(args []string) error {
 			defer wg.Done()
 			for c := 0; c < nc; c++ {
 				i := rng.Intn(len(jobs))
+				if c < 2 {
+					i = len(jobs) - 1 - rng.Intn(nprod) // the fresh parser's first calls race with one another
+				}
 				got := jobs[i].run()
 				mu.Lock()
 				total++
